@@ -14,7 +14,10 @@ const padBase = 2097152
 
 type Pad struct {
 	Len   int    `json:"len"`
-	Style string `json:"style"` // "p" plain letters, "b" text with lone braces, "c" comment
+	Style string `json:"style"` // "p" plain letters, "b" text with lone braces, "c" comment, "e" empty print tags
+	// Total > 0: the pad is as long as needed for the template that contains it to be
+	// exactly Total bytes (resolved by resolvePads before rendering)
+	Total int `json:"total"`
 }
 
 func padText(p Pad, inSource bool) string {
@@ -27,15 +30,20 @@ func padText(p Pad, inSource bool) string {
 			return "{##}"
 		}
 		return "{#" + strings.Repeat("c", p.Len-4) + "#}"
+	case "e": // print tags that print nothing: many tokens, no output
+		if !inSource {
+			return ""
+		}
+		return strings.Repeat("{{''}}", p.Len/6)
 	case "b":
-		unit := "a { b } c % d # e \\ f ' g \" h\n"
+		unit := "A { B } C % D # E \\ F ' G \" H\n"
 		var sb strings.Builder
 		for sb.Len() < p.Len {
 			sb.WriteString(unit)
 		}
 		return sb.String()[:p.Len]
 	default:
-		return strings.Repeat("p", p.Len)
+		return strings.Repeat("P", p.Len)
 	}
 }
 
@@ -271,3 +279,32 @@ func dump(v interface{}) string {
 }
 
 func buildObj(v Value) interface{} { return nil }
+
+// resolvePads fixes the length of pads given by Total: the template that contains
+// pad i gets exactly Total bytes.
+func resolvePads(tp map[string][]Piece, pads []Pad) []Pad {
+	out := append([]Pad(nil), pads...)
+	for i := range out {
+		if out[i].Total <= 0 {
+			continue
+		}
+		out[i].Len = 0
+		for _, ps := range tp {
+			has := false
+			for _, p := range ps {
+				for _, c := range p.C {
+					if c == padBase+i {
+						has = true
+					}
+				}
+			}
+			if has {
+				base := len(sourceOf(ps, out))
+				if out[i].Total > base {
+					out[i].Len = out[i].Total - base
+				}
+			}
+		}
+	}
+	return out
+}
